@@ -10,11 +10,16 @@
     seval <sexpr>          -> ok <dom> <cod> <n> <diagram>* | err <class>
     srepr <sexpr>          -> ok <repr string> | err <class>      (Sum.__repr__)
     seqv <sexpr> <sexpr>   -> ok 0|1 | err <class>                (Sum.__eq__)
+    dgrepr <ops> <expr>    -> ok <repr string> | err <class>      (the value, then each op of <ops> in
+                              turn: g = .downgrade(), d = [::-1]; printed as a monoidal value)
+    dgeqv <ops> <expr> <ops> <expr> -> ok 0|1 | err <class>       (Diagram.__eq__ of two derived values)
+    dgboxrepr <box>        -> ok <repr string>                    (Box.downgrade().__repr__)
   <sexpr> ::= smk <n> <expr>* <optty> <optty> | ssingle <expr> | sadd s s | sthen s s
             | stensor s s | sdagger s          <optty> ::= N | T <ty>
 -/
 import Driver.Codec
 import Model.Repr
+import Model.Downgrade
 
 namespace DV.ReprCmd
 open DV DV.Codec
@@ -56,6 +61,17 @@ def bit (b : Bool) : String := if b then "1" else "0"
 def two {α β} (p : P α) (q : P β) : P (α × β) := do
   let a ← p; let b ← q; pure (a, b)
 
+def hops : P (List HOp) := do
+  let t ← tok
+  t.toList.mapM fun c =>
+    if c == 'g' then pure HOp.downgrade else if c == 'd' then pure HOp.dagger
+    else throw s!"bad op {c}"
+
+def derived (p : List HOp × Expr) : Except Err Diagram :=
+  match p.2.eval with
+  | .error e => .error e
+  | .ok d => applyOps p.1 d
+
 def handle (cmd : String) (rest : List String) : Option String :=
   match cmd with
   | "repr" => some <| run expr rest fun e => showE e.eval reprDiagram
@@ -75,6 +91,12 @@ def handle (cmd : String) (rest : List String) : Option String :=
       match a.eval with
       | .error e => "err " ++ toString e
       | .ok x => showE b.eval fun y => bit (x.eqv y)
+  | "dgrepr" => some <| run (two hops expr) rest fun p => showE (derived p) reprDiagramM
+  | "dgeqv" => some <| run (two (two hops expr) (two hops expr)) rest fun (a, b) =>
+      match derived a with
+      | .error e => "err " ++ toString e
+      | .ok x => showE (derived b) fun y => bit (x.eqv y)
+  | "dgboxrepr" => some <| run box rest fun b => "ok " ++ reprBoxM b.downgrade
   | _ => none
 
 end DV.ReprCmd
